@@ -100,11 +100,17 @@ def lean_file(path, timeout=1800):
     return p.returncode == 0, _clean(p.stdout + p.stderr)
 
 
-def lean_run(driver, lines, timeout=3000):
+def lean_run(driver, lines, timeout=1500):
     """Pipe protocol lines through a driver (lean/Drive/<driver>.lean); returns output lines."""
     inp = "\n".join(lines) + "\n"
-    p = subprocess.run(["lake", "env", "lean", "--run", f"Drive/{driver}.lean"], cwd=LEAN, input=inp,
-                       capture_output=True, text=True, timeout=timeout)
+    try:
+        p = subprocess.run(["lake", "env", "lean", "--run", f"Drive/{driver}.lean"], cwd=LEAN, input=inp,
+                           capture_output=True, text=True, timeout=timeout)
+    except subprocess.TimeoutExpired:
+        # a time-out is an infrastructure failure, never a verdict
+        print(f"ERROR driver {driver} timed out after {timeout}s (exit 2, not a verdict)")
+        sys.stdout.flush()
+        os._exit(2)
     out = [l for l in p.stdout.splitlines() if l.strip() != "" and not re.match(r"^Drive/\S+\.lean:\d+:\d+: (warning|info)", l)
            and not l.startswith("Note:") and not l.startswith("Hint:")]
     if p.returncode != 0:
